@@ -816,6 +816,7 @@ func runC17Extra(w *fw.Worker) {
 	for d := 0; d <= depth; d++ {
 		var next [][]string
 		for _, h := range frontier {
+			w.Progress()
 			key, v := symtabRun(h)
 			if v != nil {
 				v.Input = h
